@@ -175,6 +175,7 @@ def del (s : Store) (id : Nat) (key : Bytes) (comp : Nat) : Store × String :=
   match getDb s id with
   | none => (s, "del invalid_args")
   | some d =>
+    if s.readonly then (s, "del readonly") else
     match toEffective d.flags key comp with
     | .error e => (s, s!"del {keyErrName e}")
     | .ok ek =>
@@ -207,7 +208,9 @@ def destroyDb (s : Store) (id : Nat) : Store × String :=
 def metaSet (s : Store) (id : Nat) (m : Bytes) : Store × String :=
   match getDb s id with
   | none => (s, "mset invalid_args")
-  | some d => if m.isEmpty then (s, "mset ok") else (setDb s id { d with mdata := m }, "mset ok")
+  | some d =>
+    if s.readonly then (s, "mset readonly")
+    else if m.isEmpty then (s, "mset ok") else (setDb s id { d with mdata := m }, "mset ok")
 
 /-- `iwkv_db_get_meta`: the harness prints whether at least min(known, bufsz) bytes came back and
     the first min(rsz, known) bytes -/
@@ -316,6 +319,7 @@ def curSet (s : Store) (c : Nat) (v : Bytes) (ph : Nat) : Store × String :=
     match Kv.curRec d.db p with
     | none => (d, p, "cur notfound" ++ (if ph ≠ 0 then " ph=notcalled" else ""))
     | some (_, ov) =>
+      if s.readonly then (d, p, "cur readonly" ++ (if ph ≠ 0 then " ph=notcalled" else "")) else
       if ph = 2 then (d, p, s!"cur fail ph=old:{pval ov}")
       else ({ d with db := Kv.curSet d.db p v }, p, "cur ok" ++ (if ph = 1 then s!" ph=old:{pval ov}" else ""))
 
@@ -330,6 +334,7 @@ def curDel (s : Store) (c : Nat) : Store × String :=
       | none => (s, "cur nocursor")
       | some p =>
         if (Kv.curRec d.db p).isNone then (s, "cur notfound")
+        else if s.readonly then (s, "cur readonly")
         else (setDb s id { d with db := Kv.curDel d.db p }, "cur ok")   -- fix-ups reposition this cursor too
 
 end IwModel.KvApi
